@@ -237,13 +237,13 @@ theorem decoded_frame_is_answered (d : Dev) (h : Header) (pl : Bytes) (dec : Dec
 /-! ### the no-progress detection of the parser engine -/
 
 /-- **A machine level that remembers its crumbs `(state, position)` stops**: whatever the transition function
-does (consume, push back, loop on epsilon transitions), the loop makes at most `|states|·(|input|+1) + 1`
+does (consume, push back, loop on epsilon transitions), the loop makes at most `|states|·(|input|+1)`
 passes, and given that much fuel it ends by itself — on a missing transition or on seeing a crumb again
 (`dfa_base.delegate`'s stasis, `state.run`'s `seen`). -/
 theorem engine_no_progress_stops (m : Machine) (input : List Nat) (fuel : Nat) (c : Nat × Nat)
     (hc : c.1 < m.nstates ∧ c.2 ≤ input.length) :
-    (runCrumbs m input fuel [c] c).1 ≤ m.nstates * (input.length + 1)
-    ∧ (m.nstates * (input.length + 1) < fuel → (runCrumbs m input fuel [c] c).2 ≠ .fuel) := by
+    (runCrumbs m input fuel [c] c).passes ≤ m.nstates * (input.length + 1)
+    ∧ (m.nstates * (input.length + 1) < fuel → (runCrumbs m input fuel [c] c).stop ≠ .fuel) := by
   have hn : [c].Nodup := by simp
   have hv : ∀ x ∈ [c], x.1 < m.nstates ∧ x.2 ≤ input.length := by
     intro x hx; simp only [List.mem_singleton] at hx; subst hx; exact hc
@@ -296,7 +296,8 @@ example : ∃ h pl dec, splitFrame writeFrame = some (h, pl, []) ∧ decodeFrame
 two passes (stasis); without it the loop runs for as long as it is given fuel -/
 def cycle : Machine := { nstates := 2, step := fun s pos _ => some ((s + 1) % 2, pos) }
 
-example : runCrumbs cycle [65, 66] 1000 [(0, 0)] (0, 0) = (2, .stasis) := by decide +kernel
-example : runBlind cycle [65, 66] 1000 (0, 0) = (1000, .fuel) := by decide +kernel
+example : runCrumbs cycle [65, 66] 1000 [(0, 0)] (0, 0) = ⟨2, .stasis, (1, 0)⟩ := by decide +kernel
+example : (runBlind cycle [65, 66] 1000 (0, 0)).stop = .fuel ∧ (runBlind cycle [65, 66] 1000 (0, 0)).passes = 1000 := by
+  decide +kernel
 
 end Cpppo.Serve
